@@ -169,6 +169,67 @@ theorem retry_only_after_connection_failure (outs : List (Exch ρ)) (hw : WfScri
   simp only [resultOk, observe, Bool.and_eq_true] at h
   exact List.all_eq_true.mp h.1.2
 
+/-! ### every script length of the quantifier (1..4 and beyond), read as the harness reads it
+
+The property quantifies over outcome sequences of length 1..4.  A session script shorter than the number of
+attempts is read as "the last outcome persists" (what the harness' fake session does: it repeats the last
+scripted outcome).  `pad outs o` is the script `outs` followed by its last outcome `o` three more times; for
+it the length hypothesis of `c17_result_ok` holds by itself, so the theorems below have NO length
+hypothesis: they cover every non-empty script literally. -/
+
+/-- `outs ++ [o]` with `o` persisting -/
+def pad (outs : List (Exch ρ)) (o : Exch ρ) : List (Exch ρ) := outs ++ o :: List.replicate 3 o
+
+omit [DecidableEq ρ] in
+theorem wf_pad (outs : List (Exch ρ)) (o : Exch ρ) (hw : WfScript tables (outs ++ [o])) :
+    WfScript tables (pad outs o) := by
+  intro c st hm
+  apply hw c st
+  simp only [pad, List.mem_append, List.mem_cons, List.mem_replicate] at hm
+  simp only [List.mem_append, List.mem_singleton]
+  rcases hm with h | h | ⟨_, h⟩
+  · left; exact h
+  · right; exact h
+  · right; exact h
+
+omit [DecidableEq ρ] in
+theorem len_pad (session : Bool) (outs : List (Exch ρ)) (o : Exch ρ) :
+    (if session then tables.retries else 0) < (pad outs o).length := by
+  have := tables_good.2.2.2
+  cases session <;> simp [pad] <;> omega
+
+/-- **Main theorem without a length hypothesis**: for every requester and every non-empty script
+    `outs ++ [o]` over the transport classes — of length 1, 2, 3, 4, … — the property predicate holds. -/
+theorem c17_result_ok_all_lengths (session : Bool) (outs : List (Exch ρ)) (o : Exch ρ)
+    (hw : WfScript tables (outs ++ [o])) :
+    resultOk tables session (pad outs o) (observe tables (request tables session (pad outs o))) = true :=
+  c17_result_ok session _ (wf_pad outs o hw) (len_pad session outs o)
+
+theorem never_raw_all_lengths (session : Bool) (outs : List (Exch ρ)) (o : Exch ρ)
+    (hw : WfScript tables (outs ++ [o])) :
+    match (request tables session (pad outs o)).1 with
+    | .ret r => ∃ i : Nat, (pad outs o)[i]? = some (Exch.ok r) ∧ ∀ j : Nat, j < i → ∃ c st, (pad outs o)[j]? = some (Exch.exc c st)
+    | .raised k _ => subclass tables k tables.cUpnpComm = true
+    | .swallowed => False :=
+  never_raw session _ (wf_pad outs o hw) (len_pad session outs o)
+
+theorem retry_only_after_connection_failure_all_lengths (outs : List (Exch ρ)) (o : Exch ρ)
+    (hw : WfScript tables (outs ++ [o])) :
+    ∀ x ∈ (pad outs o).take ((request tables true (pad outs o)).2 - 1), connLevel tables x = true :=
+  retry_only_after_connection_failure _ (wf_pad outs o hw) (by simpa using len_pad true outs o)
+
+/-- non-vacuity: scripts of length 1 and 2 for the session requester (which `c17_result_ok` does not reach) -/
+example :
+    request tables true (pad ([] : List (Exch Nat)) (.exc 14 none)) = (.raised 23 none, 3)
+    ∧ request tables true (pad [Exch.exc 17 none] (.ok 5)) = (.ret 5, 2)
+    ∧ WfScript tables ([Exch.exc 17 none] ++ [(.ok 5 : Exch Nat)]) := by
+  refine ⟨by decide, by decide, ?_⟩
+  intro c st h
+  simp only [List.cons_append, List.nil_append, List.mem_cons, Exch.exc.injEq, reduceCtorEq, List.not_mem_nil,
+    or_false] at h
+  obtain ⟨rfl, _⟩ := h
+  decide
+
 /-! ### Host header -/
 
 /-- `host_zone_stripped`: for EVERY URL of the grammar whose host carries a zone identifier
